@@ -86,7 +86,7 @@ HARNESSES = [
      "bounds": "two consecutive key exchanges of one client against arbitrary peers: dial failure, ALPN mismatch, write/export failure, every byte stream of 0..16 bytes (<= 4 records) in every segmentation"},
     {"name": "readdata12", "fn": K + "VerifC20ReadData12", "bounds": "every byte stream of 0..12 bytes (<= 3 records), every segmentation into reads"},
     {"name": "readdata16", "fn": K + "VerifC20ReadData16", "bounds": "every byte stream of 0..16 bytes (<= 4 records), every segmentation", "thorough_only": True},
-    {"name": "readdata24", "fn": K + "VerifC20ReadData24", "bounds": "every byte stream of 0..24 bytes (<= 6 records), every segmentation", "thorough_only": True},
+    {"name": "readdata24", "fn": K + "VerifC20ReadData24", "bounds": "every byte stream of 0..24 bytes (<= 6 records), every segmentation", "thorough_only": True, "cfg": {"str_bound": 24, "copy_bound": 32}},
 ]
 ASSUMPTIONS = ["stream model: bufio.Reader.Read = one underlying read of arbitrary size; binary.Read / io.ReadFull by contract (exactly n bytes or EOF / ErrUnexpectedEOF)"]
 EXPLANATION = ""
